@@ -67,3 +67,20 @@ def series_no_polarity_guard(v):
         fam = d.get("family", {})
         return fam.get("series") in ("Source", "PSwitch", "PMux", "RectM") and d.get("outcome") == "returned"
     return False
+
+
+DOT_KEYWORDS = {"node", "edge", "graph", "digraph", "subgraph", "strict"}
+
+
+def hostile_name(n, heat=False):
+    return (":" in n) or ('"' in n) or (n.lower() in DOT_KEYWORDS) or (n == "Scale")
+
+
+@mechanism("diagram.hostile_names")
+def diagram_hostile_names(v):
+    """F13: names that need DOT quoting/escaping. Matches only cases whose spec contains such a name."""
+    if not v["clause"].startswith(("diag.", "raw.", "dot.", "heat.")):
+        return False
+    spec = (v.get("case") or {}).get("spec") or {}
+    names = [c["name"] for c in spec.get("comps", [])]
+    return any(hostile_name(n) for n in names)
